@@ -177,6 +177,7 @@ type sys struct {
 	head     string
 	tag      string
 	dead     bool
+	ahead    bool   // variant "ahead": headers may lie up to 15 s after the block time, later ones are refused as coming from the future
 	now      int64  // unix seconds of the local clock (variant "expiry": advances 12 s per operation)
 	tp       uint64 // trusting period in seconds (0 = far away)
 }
@@ -195,6 +196,13 @@ func New(uni []Node, tag string) bfs.System {
 	g := toProto(s.hdr["G"])
 	cs := &ethclient.ClientState{Header: *g, ChainId: 4, ContractAddress: common.HexToAddress("0x20000001").Bytes(), TrustingPeriod: 10_000_000, TimeDelay: 0, BlockDelay: 1}
 	s.now = int64(baseTime) + 1000
+	if strings.Contains(tag, "ahead") {
+		// the local clock lies behind the counterparty's: headers of the third generation are 10 s ahead of the block time
+		// (15 s are tolerated), deeper ones too far ahead; a head whose time is ahead of the clock must not wedge the client
+		s.now = int64(baseTime) + 3*12 - 10
+		s.ahead = true
+		s.ctx = s.h.Ctx(time.Unix(s.now, 0))
+	}
 	if strings.Contains(tag, "expiry") {
 		// the genesis header leaves the trusting period after the second operation while its descendants are still inside it:
 		// updates then prune the oldest consensus state (and its header / root index)
@@ -323,6 +331,9 @@ func (s *sys) Apply(op string) (obs, class string, viols []bfs.Viol) {
 		}
 		if s.expired(s.head) {
 			return "rej", "client expired (its head left the trusting period)", viols
+		}
+		if s.ahead && int64(s.hdr[name].Time) > s.now+15 {
+			return "rej", "header more than 15 s ahead of the block time", viols
 		}
 		if s.accepted[parent] && s.expired(parent) {
 			return "rej", "child of a header that left the trusting period (may have been pruned)", viols
